@@ -27,49 +27,92 @@ def run_replay(ctx, exe, oracle, corr, TAG):
                 corr.append(item)
 
 
-def run(ctx, theorems, TAG, jobs, text, rule, suite_desc):
-    """theorems: {file: [names]}; jobs(ctx, rel) -> list of schedrun argument lists."""
+def driver_of(scenario):
+    """upper-API scenarios (names u-*) are replayed on machine M2 by driver ustep, the others on M1 by step"""
+    return sc.UPPER_DRIVER if scenario and scenario.startswith("u-") else sc.DRIVER
+
+
+def collect(ctx, TAG, jobs, suite_desc, driver=None, sample=None, geoms=None, limit=3):
+    """Builds driver + harness, runs the jobs (all geometries in the thorough tier), shrinks a representative of every
+    kind of failure.  Returns (oracle_fail, corr_fail) for vlib.classify.  driver: sc.DRIVER (M1) or sc.UPPER_DRIVER (M2)."""
+    driver = driver or sc.DRIVER
+    oracle, corr = [], []
+    exe = vlib.build_driver(ctx, driver)
+    if exe is None:
+        corr.append(("driver build failed", ctx.notes[-1:]))
+        return oracle, corr
+    if ctx.replay:
+        for scenario, feats, sched in sc.parse_replay_file(ctx.replay):
+            if driver_of(scenario) != driver:
+                continue
+            rel = vlib.build_harness(ctx, [sc.HARNESS_BIN], feats)
+            if rel is None:
+                corr.append(("build failed", ctx.notes[-1:]))
+                continue
+            fails, summ, tr = sc.replay(ctx, rel, exe, scenario, sched)
+            ctx.suites.append({"suite": "replay %s %s" % (scenario, ",".join(map(str, sched))), "evaluations": summ.get("evaluations", 0),
+                               "distinct": summ.get("distinct", 0)})
+            for f in fails:
+                f.features = feats
+                item = (f.text, sc.replay_lines(f, None, feats))
+                if f.kind == "ORACLE" and f.tag == TAG:
+                    oracle.append(item)
+                elif f.kind != "ORACLE":
+                    corr.append(item)
+        return oracle, corr
+    for feats in (geoms if geoms is not None else ([()] if ctx.quick else GEOMETRIES)):
+        rel = vlib.build_harness(ctx, [sc.HARNESS_BIN], feats)
+        if rel is None:
+            corr.append(("harness build failed (%s)" % (",".join(feats) or "default"), ctx.notes[-1:]))
+            continue
+        label = ",".join(feats) or "default"
+        fails, summ, notes = sc.run_jobs(ctx, rel, exe, jobs(ctx, rel), feats, label="%s-%s-%s" % (driver, TAG.strip("[]"), vlib.feat_dir(feats)),
+                                         timeout=80 if ctx.quick else 1000)
+        ctx.notes += notes
+        mine = [f for f in fails if f.kind == "ORACLE" and f.tag == TAG]
+        other = [f for f in fails if f.kind == "ORACLE" and f.tag != TAG]
+        bad = [f for f in fails if f.kind != "ORACLE"]
+        suite = {
+            "suite": "schedrun|%s (%s): %s" % (driver, label, suite_desc),
+            "evaluations": summ.get("evaluations", 0), "distinct": summ.get("distinct", 0),
+            "runs": summ.get("runs", 0), "max_steps": summ.get("maxsteps", 0), "failed_cas_steps": summ.get("failed_cas", 0),
+            "prologue_calls": summ.get("pre", 0), "panics": summ.get("panics", 0),
+            "modes": {k[5:]: v for k, v in summ.items() if k.startswith("mode:")},
+            "scenarios": {k[4:]: v for k, v in summ.items() if k.startswith("scn:")},
+            "oracle_failures_of_other_properties": len(other),
+            "other_tags": sorted({f.tag for f in other}),
+        }
+        for k in ("snaps", "stale_split_leaks", "solos", "solomax", "post", "quiescent"):
+            if k in summ:
+                suite[k] = summ[k]
+        acc = {k[4:]: v for k, v in summ.items() if k.startswith("acc:")}
+        if acc:
+            suite["accesses_by_location"] = acc
+        ctx.suites.append(suite)
+        for f in sc.group_failures(mine, 1)[:limit] + sc.group_failures(bad, 1)[:limit]:
+            shrunk = sc.shrink(ctx, rel, exe, f, budget=120) if f.scenario else None
+            item = (f.text if not shrunk else shrunk[3].text, sc.replay_lines(f, shrunk, feats))
+            (oracle if f.kind == "ORACLE" else corr).append(item)
+        if rel and sample and len(ctx.samples) < 8:
+            rc, out = vlib.sh([os.path.join(rel, sc.HARNESS_BIN), "--mode", "replay", "--scenario", sample[0], "--schedule", sample[1]])
+            ctx.samples += [ln for ln in out.split("\n") if ln.startswith(("CALL", "S ", "RET"))][:8 - len(ctx.samples)]
+    return oracle, corr
+
+
+def run(ctx, theorems, TAG, jobs, text, rule, suite_desc, driver=None, more=(), extra=None):
+    """theorems: {file: [names]}; jobs(ctx, rel) -> list of schedrun argument lists.
+    more: further (jobs, suite_desc, driver) suites with the same tag (e.g. the upper-API scenarios on machine M2)."""
     proofs_ok = vlib.coq_prove_multi(ctx, [(os.path.join(vlib.COQ, "Properties", f), t) for f, t in theorems.items()]) if theorems else False
     if not theorems:
         ctx.notes.append("no theorem registered")
-    oracle, corr = [], []
-    exe = vlib.build_driver(ctx, sc.DRIVER)
-    if exe is None:
-        corr.append(("driver build failed", ctx.notes[-1:]))
-    elif ctx.replay:
-        run_replay(ctx, exe, oracle, corr, TAG)
-    else:
-        geoms = [()] if ctx.quick else GEOMETRIES
-        for feats in geoms:
-            rel = vlib.build_harness(ctx, [sc.HARNESS_BIN], feats)
-            if rel is None:
-                corr.append(("harness build failed (%s)" % (",".join(feats) or "default"), ctx.notes[-1:]))
-                continue
-            label = ",".join(feats) or "default"
-            fails, summ, notes = sc.run_jobs(ctx, rel, exe, jobs(ctx, rel), feats, label=vlib.feat_dir(feats),
-                                             timeout=80 if ctx.quick else 1000)
-            ctx.notes += notes
-            mine = [f for f in fails if f.kind == "ORACLE" and f.tag == TAG]
-            other = [f for f in fails if f.kind == "ORACLE" and f.tag != TAG]
-            bad = [f for f in fails if f.kind != "ORACLE"]
-            ctx.suites.append({
-                "suite": "schedrun|step (%s): %s" % (label, suite_desc),
-                "evaluations": summ.get("evaluations", 0), "distinct": summ.get("distinct", 0),
-                "runs": summ.get("runs", 0), "max_steps": summ.get("maxsteps", 0), "failed_cas_steps": summ.get("failed_cas", 0),
-                "prologue_calls": summ.get("pre", 0), "panics": summ.get("panics", 0),
-                "modes": {k[5:]: v for k, v in summ.items() if k.startswith("mode:")},
-                "scenarios": {k[4:]: v for k, v in summ.items() if k.startswith("scn:")},
-                "oracle_failures_of_other_properties": len(other),
-                "other_tags": sorted({f.tag for f in other}),
-            })
-            # shrink one representative per kind of failure
-            for f in sc.group_failures(mine, 1)[:3] + sc.group_failures(bad, 1)[:3]:
-                shrunk = sc.shrink(ctx, rel, exe, f, budget=120) if f.scenario else None
-                item = (f.text if not shrunk else shrunk[3].text, sc.replay_lines(f, shrunk, feats))
-                (oracle if f.kind == "ORACLE" else corr).append(item)
-            if rel and not ctx.samples:
-                rc, out = vlib.sh([os.path.join(rel, sc.HARNESS_BIN), "--mode", "replay", "--scenario", "get7-get0row1",
-                                   "--schedule", "0,0,0,0,0,0,1,1,1,1,1"])
-                ctx.samples += [ln for ln in out.split("\n") if ln.startswith(("CALL", "S ", "RET"))][:8]
+    oracle, corr = collect(ctx, TAG, jobs, suite_desc, driver, sample=("get7-get0row1", "0,0,0,0,0,0,1,1,1,1,1"))
+    for j, d, drv in more:
+        o, c = collect(ctx, TAG, j, d, drv, sample=("u-get0-get0-slot", "0,0,0,1,1"))
+        oracle += o
+        corr += c
+    if extra is not None and not ctx.replay:
+        o, c = extra(ctx)        # further suites of the property (e.g. its sequential histories)
+        oracle += o
+        corr += c
     vlib.classify(ctx, proofs_ok, oracle, corr, name="schedrun/step")
     return vlib.finish(ctx, text, rule)
